@@ -898,3 +898,231 @@ def _vec_truncate(ex, args, f):
     n = pick(ex, deref_all(ex, args[1]), max(len(v.items), 1) + 64)
     v.items = v.items[:n]
     return UNIT
+
+
+# ---- std::path on Unix (ASCII): components, parent, file_name, strip_prefix -----------------------------------------------------
+def path_components(ex, bs):
+    """std::path::Components for a Unix path: list of (kind, start, end); kinds Root, Cur, Parent, Normal.
+    '.' components are skipped except a leading one of a relative path; empty components are skipped."""
+    n = len(bs)
+    comps = []
+    i = 0
+    rooted = n > 0 and ex.decide(bs[0] == ord("/"))
+    if rooted:
+        comps.append(("Root", 0, 1))
+    first = True
+    while i < n:
+        if ex.decide(bs[i] == ord("/")):
+            i += 1
+            continue
+        j = i
+        while j < n and not ex.decide(bs[j] == ord("/")):
+            j += 1
+        ln = j - i
+        if ln == 1 and ex.decide(bs[i] == ord(".")):
+            if first and not rooted:
+                comps.append(("Cur", i, j))
+        elif ln == 2 and ex.decide(z3.And(bs[i] == ord("."), bs[i + 1] == ord("."))):
+            comps.append(("Parent", i, j))
+        else:
+            comps.append(("Normal", i, j))
+        first = False
+        i = j
+    return comps
+
+
+def _path_bytes(ex, v):
+    v = deref_all(ex, v)
+    if isinstance(v, PathV):
+        return v.bs
+    return as_str(ex, v).bytes()
+
+
+@intr("<_ as From>::from")
+def _from_path(ex, args, f, _prev=I["<_ as From>::from"]):
+    if f.strip().startswith("<PathBuf as") or "as From<String>>" in f and "PathBuf" in f:
+        return PathV(as_str(ex, args[0]).bytes())
+    return _prev(ex, args, f)
+
+
+@intr("<_ as Deref>::deref")
+def _deref_path(ex, args, f, _prev=I["<_ as Deref>::deref"]):
+    v = deref_all(ex, args[0])
+    if isinstance(v, PathV):
+        return v
+    return _prev(ex, args, f)
+
+
+@intr("Path::parent", "std::path::Path::parent")
+def _path_parent(ex, args, f):
+    bs = _path_bytes(ex, args[0])
+    comps = path_components(ex, bs)
+    if not comps or comps[-1][0] == "Root":
+        return NONE
+    end = comps[-2][2] if len(comps) >= 2 else 0
+    return some(PathV(bs[:end]))
+
+
+@intr("Path::file_name", "std::path::Path::file_name")
+def _path_file_name(ex, args, f):
+    bs = _path_bytes(ex, args[0])
+    comps = path_components(ex, bs)
+    if not comps or comps[-1][0] != "Normal":
+        return NONE
+    return some(PathV(bs[comps[-1][1]:comps[-1][2]]))
+
+
+@intr("Path::strip_prefix", "std::path::Path::strip_prefix")
+def _path_strip_prefix(ex, args, f):
+    bs = _path_bytes(ex, args[0])
+    pb = _path_bytes(ex, args[1])
+    a = path_components(ex, bs)
+    b = path_components(ex, pb)
+    if len(b) > len(a):
+        return err(Opaque("StripPrefixError"))
+    for (ka, sa, ea), (kb, sb, eb) in zip(a, b):
+        if ka != kb:
+            return err(Opaque("StripPrefixError"))
+        if ka == "Normal":
+            if ea - sa != eb - sb or not ex.decide(z3.And([x == y for x, y in zip(bs[sa:ea], pb[sb:eb])])):
+                return err(Opaque("StripPrefixError"))
+    rest = a[len(b):]
+    if not rest:
+        return ok(PathV([]))
+    return ok(PathV(bs[rest[0][1]:a[-1][2]]))
+
+
+@intr("Path::to_string_lossy", "OsStr::to_string_lossy", "std::path::Path::to_string_lossy")
+def _path_to_string_lossy(ex, args, f):
+    return Adt("Cow", "Borrowed", [Str(_path_bytes(ex, args[0]))])
+
+
+@intr("Path::to_str", "OsStr::to_str")
+def _path_to_str(ex, args, f):
+    return some(Str(_path_bytes(ex, args[0])))
+
+
+# ---- BTreeMap / BTreeSet (ordered collections keyed by strings; order is not modelled, membership is) --------------------------------
+class MapV:
+    def __init__(self):
+        self.keys = []
+        self.vals = []
+
+
+@intr("BTreeMap::new", "BTreeSet::new", "std::collections::BTreeMap::new", "std::collections::BTreeSet::new")
+def _btree_new(ex, args, f):
+    return MapV()
+
+
+def _find_key(ex, m, key):
+    from intrinsics2 import _eq_any
+    for i, k in enumerate(m.keys):
+        if ex.decide(_eq_any(ex, k, key)):
+            return i
+    return None
+
+
+@intr("BTreeSet::insert", "BTreeSet::<T>::insert")
+def _btreeset_insert(ex, args, f):
+    m = deref_all(ex, args[0])
+    if _find_key(ex, m, args[1]) is not None:
+        return Bool(False)
+    m.keys.append(args[1])
+    m.vals.append(UNIT)
+    return Bool(True)
+
+
+class EntryV:
+    def __init__(self, m, key):
+        self.m = m
+        self.key = key
+
+
+@intr("BTreeMap::entry", "BTreeMap::<K, V>::entry")
+def _btreemap_entry(ex, args, f):
+    return EntryV(deref_all(ex, args[0]), args[1])
+
+
+@intr("std::collections::btree_map::Entry::or_insert", "Entry::or_insert")
+def _entry_or_insert(ex, args, f):
+    e = deref_all(ex, args[0])
+    i = _find_key(ex, e.m, e.key)
+    if i is None:
+        e.m.keys.append(e.key)
+        e.m.vals.append(args[1])
+        i = len(e.m.keys) - 1
+    return Ref(Cell(e.m.vals[i]))
+
+
+@intr("BTreeMap::insert", "BTreeMap::<K, V>::insert")
+def _btreemap_insert(ex, args, f):
+    m = deref_all(ex, args[0])
+    i = _find_key(ex, m, args[1])
+    if i is None:
+        m.keys.append(args[1])
+        m.vals.append(args[2])
+        return NONE
+    old = m.vals[i]
+    m.vals[i] = args[2]
+    return some(old)
+
+
+# ---- itertools::multizip, FromIterator, bitflags ---------------------------------------------------------------------------------------
+class MultiZip:
+    def __init__(self, iters, owned):
+        self.iters = iters
+        self.owned = owned
+
+
+@intr("multizip", "itertools::multizip")
+def _multizip(ex, args, f):
+    tup = deref_all(ex, args[0])
+    iters, owned = [], []
+    for it in tup.items:
+        v = deref_all(ex, it)
+        owned.append(isinstance(it, VecV))      # a Vec moved into the zip yields items by value
+        iters.append(I["<_ as IntoIterator>::into_iter"](ex, [it], f))
+    return MultiZip(iters, owned)
+
+
+@intr("<_ as Iterator>::next")
+def _next7(ex, args, f, _prev=I["<_ as Iterator>::next"]):
+    it = deref_all(ex, args[0])
+    if isinstance(it, MultiZip):
+        out = []
+        for sub, own in zip(it.iters, it.owned):
+            x = _iter_next(ex, sub, f)
+            if x.variant == "None":
+                return NONE
+            out.append(deref_all(ex, x.fields[0]) if own else x.fields[0])
+        return some(Tup(out))
+    return _prev(ex, args, f)
+
+
+@intr("<_ as FromIterator>::from_iter", "<_ as Iterator>::collect")
+def _from_iter(ex, args, f):
+    it = deref_all(ex, args[0])
+    out = []
+    while True:
+        x = _iter_next(ex, it, f)
+        if x.variant == "None":
+            break
+        out.append(x.fields[0])
+        if len(out) > 4096:
+            raise Unsupported("collect: too many items")
+    return VecV(out)
+
+
+@intr("<_ as Iterator>::enumerate")
+def _enumerate(ex, args, f):
+    raise Unsupported("enumerate")
+
+
+def _bits_retain(ex, args, f):
+    m = re.search(r"<impl (?:constants::)?(\w+)>::from_bits_retain", f)
+    return Adt(m.group(1) if m else "Flags", "bits", [deref_all(ex, args[0])])
+
+
+for _fl in ("DependencyFlags", "FileFlags", "ScriptletFlags", "FileVerifyFlags"):
+    I["constants::_::<impl constants::%s>::from_bits_retain" % _fl] = _bits_retain
+    I["constants::_::<impl %s>::from_bits_retain" % _fl] = _bits_retain
